@@ -122,6 +122,10 @@ def run_bmadx_correspondence(ctx, prop: str, n: int, ulps: float = 16384.0, weak
             scales[0] = max(scales[0], 1e-2 * Lp)
             scales[2] = max(scales[2], 1e-2 * Lp)
             scales[4] = max(scales[4], Lp)
+            # bend body: px = px_norm * sin(angle + phi1 - theta_p) is a difference of O(angle) quantities
+            ang = abs(float(p.get("angle", 0.0)))
+            scales[1] = max(scales[1], 1e-2 * ang)
+            scales[3] = max(scales[3], 1e-2 * ang)
             ok, what = True, ""
             for j in range(8):
                 okj, w, _ = vec_close([real[j]], [model[j]], ulps=ulps, scale=float(scales[j]))
